@@ -5,8 +5,8 @@ use super::world::*;
 use serde_json::json;
 use smoltcp::iface::SocketHandle;
 use smoltcp::phy::PacketMeta;
-use smoltcp::socket::{icmp, udp};
-use smoltcp::wire::IpEndpoint;
+use smoltcp::socket::{icmp, raw, udp};
+use smoltcp::wire::{IpEndpoint, IpProtocol, IpVersion};
 use vkit::indep::*;
 use vkit::runner::{guarded, panic_in_smoltcp, panic_key, Fail, PhaseResult, RunEnv, Tier};
 use vkit::sim::tcpbed::prf_bytes;
@@ -248,12 +248,19 @@ pub fn draw_hop(src: &mut Src) -> u8 {
 pub struct SockSpec {
     pub udp_ports: Vec<u16>,
     pub icmp_ident: Option<u16>,
+    /// also observe whole UDP datagrams with a raw socket (suppresses port-unreachable
+    /// replies, so only where every datagram is addressed to a bound port)
+    pub raw_udp: bool,
 }
 
 #[derive(Clone, Debug, Default)]
 pub struct Socks {
     pub udp: Vec<(SocketHandle, u16)>,
     pub icmp: Option<(SocketHandle, u16)>,
+    /// raw sockets (added last): they see every decompressed datagram of their protocol
+    /// with its IPv6 header, the only place where the receiver's view of the header
+    /// fields (hop limit, lengths, addresses) can be observed
+    pub raw: Vec<SocketHandle>,
 }
 
 pub fn make_socks(node: &mut Node, spec: &SockSpec) -> Socks {
@@ -272,7 +279,28 @@ pub fn make_socks(node: &mut Node, spec: &SockSpec) -> Socks {
         sock.bind(icmp::Endpoint::Ident(id)).expect("icmp bind");
         s.icmp = Some((node.sockets.add(sock), id));
     }
+    let mut protos = vec![IpProtocol::Icmpv6];
+    if spec.raw_udp {
+        protos.push(IpProtocol::Udp);
+    }
+    for p in protos {
+        let rx = raw::PacketBuffer::new(vec![raw::PacketMetadata::EMPTY; 16], vec![0u8; 40_000]);
+        let tx = raw::PacketBuffer::new(vec![raw::PacketMetadata::EMPTY; 1], vec![0u8; 64]);
+        s.raw.push(node.sockets.add(raw::Socket::new(Some(IpVersion::Ipv6), Some(p), rx, tx)));
+    }
     s
+}
+
+/// Whole IPv6 datagrams (header included) the receiver's raw sockets were given.
+pub fn read_raw(node: &mut Node, socks: &Socks) -> Vec<Vec<u8>> {
+    let mut v = vec![];
+    for h in &socks.raw {
+        let s = node.sockets.get_mut::<raw::Socket>(*h);
+        while let Ok(data) = s.recv() {
+            v.push(data.to_vec());
+        }
+    }
+    v
 }
 
 #[derive(Clone, Debug, PartialEq, Eq)]
@@ -401,7 +429,7 @@ pub fn queue(w: &mut World, socks: &[Socks; 2], s: &mut Sent) {
     }
 }
 
-fn first_diff(a: &[u8], b: &[u8]) -> String {
+pub fn first_diff(a: &[u8], b: &[u8]) -> String {
     if a.len() != b.len() {
         return format!("length {} vs {}", a.len(), b.len());
     }
@@ -433,6 +461,7 @@ pub struct DgramApp {
     pub socks: [Socks; 2],
     pub sent: Vec<Sent>,
     pub delivered_events: u64,
+    pub raw_checked: u64,
     pub beyond_model: u64,
     pub idle: u32,
     pub last_frames: usize,
@@ -553,6 +582,22 @@ impl DgramApp {
 
     fn check_events(&mut self, w: &mut World, side: usize, ctx: &mut Ctx) -> Result<(), Fail> {
         let o = 1 - side;
+        // whatever reaches a raw socket is a decompressed, reassembled datagram: it must be, octet
+        // for octet (IPv6 header included), one of the datagrams the independent decoder
+        // reconstructed from the other node's frames
+        for got in read_raw(&mut w.s[side].node, &self.socks[side]) {
+            if w.tainted {
+                continue;
+            }
+            if !w.s[o].an.dgrams.iter().any(|d| d.complete && d.bytes == got) {
+                let near = w.s[o].an.dgrams.iter().filter(|d| d.complete && d.bytes.len() == got.len()).map(|d| first_diff(&got, &d.bytes)).last().unwrap_or("no datagram of that length was sent".into());
+                return Err(Fail::new(
+                    "ingress:decompressed-datagram-differs-from-what-was-sent",
+                    format!("node {}: a raw socket received an IPv6 datagram of {} octets (next header {}, hop limit {}) that equals no datagram node {} transmitted; {}", side, got.len(), got.get(6).copied().unwrap_or(0), got.get(7).copied().unwrap_or(0), o, near),
+                ));
+            }
+            self.raw_checked += 1;
+        }
         let ids = std::mem::take(&mut w.s[side].completed);
         let mut expected: Vec<(Ev, usize)> = vec![];
         for id in ids {
@@ -690,7 +735,7 @@ impl App for DgramApp {
 pub fn run_twin(cfg: &Cfg, specs: &[SockSpec; 2], sent: &mut [Sent], src: &mut Src, ctx: &mut Ctx) -> Result<(), Fail> {
     let mut w = World::new(cfg, false, 9000);
     let socks = [make_socks(&mut w.s[0].node, &specs[0]), make_socks(&mut w.s[1].node, &specs[1])];
-    let mut app = DgramApp { socks: socks.clone(), sent: vec![], delivered_events: 0, beyond_model: 0, idle: 0, last_frames: 0 };
+    let mut app = DgramApp { socks: socks.clone(), sent: vec![], delivered_events: 0, raw_checked: 0, beyond_model: 0, idle: 0, last_frames: 0 };
     for s in sent.iter_mut() {
         let mut t = s.clone();
         queue(&mut w, &socks, &mut t);
@@ -816,6 +861,7 @@ pub fn finish_case(w: &mut World, app: &mut DgramApp, cfg: &Cfg, quiescent: bool
     }
     ctx.count("frames_delivered", w.frames_delivered);
     ctx.count("socket_events", app.delivered_events);
+    ctx.count("raw_socket_datagrams_compared", app.raw_checked);
     Ok(())
 }
 
@@ -910,7 +956,7 @@ fn draw_setup(src: &mut Src) -> (Classes, Setup) {
         }
     }
     let ident = src.u16();
-    let specs = [SockSpec { udp_ports: vec![ports[0], ports[1]], icmp_ident: Some(ident) }, SockSpec { udp_ports: vec![ports[2], ports[3]], icmp_ident: Some(ident) }];
+    let specs = [SockSpec { udp_ports: vec![ports[0], ports[1]], icmp_ident: Some(ident), raw_udp: false }, SockSpec { udp_ports: vec![ports[2], ports[3]], icmp_ident: Some(ident), raw_udp: false }];
     (cl, Setup { cfg, specs })
 }
 
@@ -1041,7 +1087,7 @@ pub fn dgram_case(src: &mut Src, ctx: &mut Ctx) -> Result<(), Fail> {
 
     let mut w = World::new(&cfg, true, cfg.mtu);
     let socks = [make_socks(&mut w.s[0].node, &su.specs[0]), make_socks(&mut w.s[1].node, &su.specs[1])];
-    let mut app = DgramApp { socks: socks.clone(), sent, delivered_events: 0, beyond_model: 0, idle: 0, last_frames: 0 };
+    let mut app = DgramApp { socks: socks.clone(), sent, delivered_events: 0, raw_checked: 0, beyond_model: 0, idle: 0, last_frames: 0 };
     let mut quiescent = true;
     for b in bursts {
         for k in b {
@@ -1083,7 +1129,7 @@ fn perm_setup(src: &mut Src) -> (Cfg, Setup, Sent) {
         3 => (0xf011, 0xf0c2),
         _ => (1024 + (seed & 1023) as u16, 40000),
     };
-    let su = Setup { cfg: cfg.clone(), specs: [SockSpec { udp_ports: vec![sp, sp ^ 0x100], icmp_ident: Some(seed as u16) }, SockSpec { udp_ports: vec![dp, dp ^ 0x200], icmp_ident: Some(seed as u16) }] };
+    let su = Setup { cfg: cfg.clone(), specs: [SockSpec { udp_ports: vec![sp, sp ^ 0x100], icmp_ident: Some(seed as u16), raw_udp: false }, SockSpec { udp_ports: vec![dp, dp ^ 0x200], icmp_ident: Some(seed as u16), raw_udp: false }] };
     let a_short = matches!(cfg.n[0].ll, Ll::Short(_));
     let mut dclass = fix_dst_class(dclass, &cfg, 1);
     if a_short && dclass <= 1 {
@@ -1124,7 +1170,7 @@ pub fn perm_case(src: &mut Src, ctx: &mut Ctx) -> Result<(), Fail> {
     run_twin(&cfg, &su.specs, &mut sent, src, ctx)?;
     let mut w = World::new(&cfg, true, cfg.mtu);
     let socks = [make_socks(&mut w.s[0].node, &su.specs[0]), make_socks(&mut w.s[1].node, &su.specs[1])];
-    let mut app = DgramApp { socks: socks.clone(), sent, delivered_events: 0, beyond_model: 0, idle: 0, last_frames: 0 };
+    let mut app = DgramApp { socks: socks.clone(), sent, delivered_events: 0, raw_checked: 0, beyond_model: 0, idle: 0, last_frames: 0 };
     let mut s0 = app.sent[0].clone();
     queue(&mut w, &socks, &mut s0);
     app.sent[0] = s0;
@@ -1174,7 +1220,7 @@ fn len_for_frames(prefix: &[u64], n: usize) -> Option<usize> {
         let specs = su.specs.clone();
         let mut w = World::new(&cfg, true, 1280);
         let socks = [make_socks(&mut w.s[0].node, &specs[0]), make_socks(&mut w.s[1].node, &specs[1])];
-        let mut app = DgramApp { socks: socks.clone(), sent: vec![], delivered_events: 0, beyond_model: 0, idle: 0, last_frames: 0 };
+        let mut app = DgramApp { socks: socks.clone(), sent: vec![], delivered_events: 0, raw_checked: 0, beyond_model: 0, idle: 0, last_frames: 0 };
         queue(&mut w, &socks, &mut s);
         let known = std::sync::Arc::new(vec!["*".to_string()]);
         let mut ctx = Ctx::new(false, known, false);
